@@ -456,28 +456,42 @@ Section ObjProofs.
       rewrite nth_error_app2, Nat.sub_diag by lia. reflexivity.
   Qed.
 
+  Lemma skip_load_view s r : skip_load reuse s r = true -> rd_view data nat_dt r = None.
+  Proof. unfold skip_load. destruct r; try discriminate; reflexivity. Qed.
+
+  Lemma oread_ok s r :
+    OInv s ->
+    OInv (fst (oread data true nat_dt reuse s r))
+    /\ oobs (snd (oread data true nat_dt reuse s r)) = Some (ospec_read data nat_dt r).
+  Proof.
+    intros HI. unfold oread. destruct (skip_load reuse s r) eqn:Hsk.
+    - unfold halloc. cbn [fst snd]. split.
+      + unfold OInv in *. cbn [o_array o_heap].
+        destruct (o_array s) as [a0|] eqn:Hoa; [|exact I].
+        rewrite nth_error_app1; [exact HI|apply nth_error_Some; congruence].
+      + unfold oobs, ospec_read, view_value. cbn [fst snd].
+        rewrite hget_app_new, select_all, (skip_load_view s r Hsk).
+        destruct (rd_fresh data nat_dt r); reflexivity.
+    - pose proof (ensure_ok s HI) as He.
+      destruct (ensure data true reuse s) as [[h0 a] b]. destruct He as [Ha Hb].
+      assert (Hlt : (a < length h0)%nat) by (apply nth_error_Some; congruence).
+      unfold oobs, ospec_read.
+      destruct (rd_view data nat_dt r) as [pos|] eqn:Hv.
+      + cbn [fst snd]. split; [unfold OInv; simpl; exact Ha|].
+        unfold view_value. cbn [fst snd]. rewrite Hb. reflexivity.
+      + destruct (rd_fresh data nat_dt r) as [l|] eqn:Hf.
+        * unfold halloc. cbn [fst snd]. split.
+          -- unfold OInv; simpl. now rewrite nth_error_app1.
+          -- unfold view_value. cbn [fst snd]. rewrite hget_app_new. now rewrite select_all.
+        * cbn [fst snd]. split; [unfold OInv; simpl; exact Ha|].
+          unfold view_value. cbn [fst snd]. rewrite Hb. reflexivity.
+  Qed.
+
   Lemma ostep_ok s o :
     OInv s -> OInv (fst (step s o)) /\ oobs (snd (step s o)) = ospec data nat_dt o.
   Proof.
     intros HI. destruct o as [r|j delta]; unfold step, ostep.
-    - pose proof (ensure_ok s HI) as He.
-      destruct r as [|lo hi|idx| |d cp|i|];
-        try (split; [exact HI|reflexivity]);
-        (destruct (ensure data true reuse s) as [[h0 a] b]; destruct He as [Ha Hb];
-         assert (Hlt : (a < length h0)%nat) by (apply nth_error_Some; congruence);
-         unfold oobs, ospec;
-         match goal with |- context [rd_view data nat_dt ?R] =>
-           destruct (rd_view data nat_dt R) as [pos|] eqn:Hv;
-           [ cbn [fst snd]; split; [unfold OInv; simpl; exact Ha|];
-             unfold view_value; cbn [fst snd]; rewrite Hb; reflexivity
-           | destruct (rd_fresh data nat_dt R) as [l|] eqn:Hf;
-             [ unfold halloc; cbn [fst snd]; split;
-               [ unfold OInv; simpl; now rewrite nth_error_app1
-               | unfold view_value; cbn [fst snd]; rewrite hget_app_new;
-                 now rewrite select_all ]
-             | cbn [fst snd]; split; [unfold OInv; simpl; exact Ha|];
-               unfold view_value; cbn [fst snd]; rewrite Hb; reflexivity ] ]
-         end).
+    - destruct r; try (split; [exact HI|reflexivity]); apply oread_ok; exact HI.
     - destruct (nth_error (o_outs s) j) as [v|]; [|split; [exact HI|reflexivity]].
       destruct (hmodify (o_heap s) (fst v) (fun l => bump l (snd v) delta)) as [h1 ok] eqn:Hm.
       cbn [fst snd]. split; [|reflexivity].
